@@ -9,10 +9,10 @@
      transport m tape                 : tape' j = tape i for the first i with m[i] = Some j
      input_sigs nodes                 : (operation, annotations, type) of the Input nodes, in order
      keeps nodes out m                : every mapped node keeps operation, annotations and type
-   What is not proved is listed at the end (C06_meta_sem_full, C06_optimize_sem_full). *)
+   What is not proved is kept visible as C06_meta_sem_full and C06_optimize_sem_full. *)
 From CC Require Import Base.Prelude Base.Scalar Base.Ty Base.Shape Graph.Value Graph.IR Graph.Eval Model.Opt
   Proofs.OptBase Proofs.OptSem Proofs.OptSim Proofs.OptFresh Proofs.OptDangling Proofs.OptDup
-  Proofs.OptConst Proofs.OptMeta Proofs.OptProofs.
+  Proofs.OptConst Proofs.OptMeta Proofs.OptMetaSem Proofs.OptProofs.
 
 (* the chained mapping only relates nodes that every pass still maps *)
 Theorem C06_join_maps_length : forall m1 m2, length (join_maps m1 m2) = length m1.
@@ -164,9 +164,32 @@ Theorem C06_meta_inputs : forall nodes o p,
              nth_error (po_map p) (Z.to_nat x) = Some (po_output p)).
 Proof. exact meta_struct_thm. Qed.
 
-(* NOT proved: value preservation of the meta-operation pass (getter-of-constructor laws). *)
-Definition C06_meta_sem_full : Prop := forall nodes o p,
-  opt_meta nodes o = Ok p -> pass_sem_ok nodes p.
+(* Value preservation for graphs WITHOUT ArrayToVector, Zip, A2B and B2A: TupleGet of
+   CreateTuple, NamedTupleGet of CreateNamedTuple and VectorGet (constant U64 index) of
+   CreateVector are replaced by the element, a VectorGet on an unknown vector is re-emitted on
+   the mapped operands.  meta_hyps nodes: Constant nodes have the type of their literal, U64
+   scalar literals are below 2^64, none of the four operations occurs, and constructors /
+   getters carry the type the graph builder gives them (meta_typed). *)
+Theorem C06_meta_sem_partial : forall nodes o p tape vals,
+  meta_hyps nodes ->
+  opt_meta nodes o = Ok p ->
+  eval_graph_nodes nodes tape = Ok vals ->
+  exists vals', eval_graph_nodes (po_nodes p) (transport (po_map p) tape) = Ok vals' /\
+                sim nodes (po_nodes p) vals vals' (po_map p) /\
+                (forall x, o = Some x -> 0 <= x < Z.of_nat (length nodes) ->
+                           nth_error (po_map p) (Z.to_nat x) = Some (po_output p)).
+Proof. exact meta_sem_transport. Qed.
+
+(* NOT proved: the same without the restriction `simple_meta` (VectorGet of Zip and of
+   ArrayToVector, A2B after B2A, B2A after A2B with the scalar-type test); it needs the values
+   to be well typed (C09) for the A2B/B2A round trip. *)
+Definition C06_meta_sem_full : Prop := forall nodes o p tape vals,
+  const_typed nodes -> meta_typed nodes ->
+  (forall i nd v, nth_error nodes i = Some nd -> nth_error vals i = Some v -> has_type v (n_ty nd) = true) ->
+  opt_meta nodes o = Ok p ->
+  eval_graph_nodes nodes tape = Ok vals ->
+  exists vals', eval_graph_nodes (po_nodes p) (transport (po_map p) tape) = Ok vals' /\
+                sim nodes (po_nodes p) vals vals' (po_map p).
 
 (* ---------------------------------------------------------------- F: the pipeline *)
 Theorem C06_optimize_inputs : forall nodes o p,
@@ -191,6 +214,24 @@ Theorem C06_optimize_sem_partial : forall infer nodes o p,
        exists vals', eval_graph_nodes (po_nodes p) t4 = Ok vals' /\
                      sim nodes (po_nodes p) vals vals' (po_map p)).
 Proof. exact optimize_sem_chain. Qed.
+
+(* the same with the tapes transported stage by stage; the hypotheses on the two intermediate
+   graphs (meta_hyps for the graph entering the meta pass; typedness and absence of keyed tape
+   operations for the graph entering de-duplication) are NOT derived from the input graph here *)
+Theorem C06_optimize_sem_transport_partial : forall infer nodes o p tape vals,
+  optimize_graph nodes o = Ok p ->
+  const_typed nodes ->
+  eval_graph_nodes nodes tape = Ok vals ->
+  exists p1 p2 p3 p4,
+    opt_const nodes o = Ok p1 /\ opt_meta (po_nodes p1) (po_output p1) = Ok p2 /\
+    opt_dup (po_nodes p2) (po_output p2) = Ok p3 /\ opt_dangling (po_nodes p3) (po_output p3) = Ok p4 /\
+    (meta_hyps (po_nodes p1) -> typed_nodes infer (po_nodes p2) ->
+     (forall nd deps, In nd (po_nodes p2) -> from_tape (n_op nd) = true -> node_key nd deps = Ok None) ->
+     exists vals', eval_graph_nodes (po_nodes p)
+                     (transport (po_map p4) (transport (po_map p3) (transport (po_map p2) (transport (po_map p1) tape))))
+                   = Ok vals' /\
+                   sim nodes (po_nodes p) vals vals' (po_map p)).
+Proof. exact optimize_sem_transport. Qed.
 
 Definition C06_optimize_sem_full : Prop := forall infer nodes o p tape vals,
   typed_nodes infer nodes -> const_typed nodes ->
@@ -235,6 +276,27 @@ Example C06_ex_meta :
                   [Some 0; Some 1; Some 2; Some 1; Some 4; Some 5; Some 0] (Some 0)).
 Proof. vm_compute. reflexivity. Qed.
 
+(* the conclusion of C06_meta_sem_partial on this instance: original and rewritten graph under
+   the transported tape *)
+Definition ex_meta_nodes : list node :=
+  [inp t8; inp u64; mkNode OCreateTuple [0;1] [] [] (TTuple [t8;u64]);
+   mkNode (OTupleGet 1) [2] [] [APrivate] u64;
+   mkNode (OConstant u64 (VArr [1])) [] [] [] u64;
+   mkNode (OCreateVector t8) [0;0] [] [] (TVector 2 t8); mkNode OVectorGet [5;4] [] [] t8].
+Definition ex_meta_tape := tape_of_list [(0, VArr [7]); (1, VArr [9])].
+Example C06_ex_meta_eval :
+  match opt_meta ex_meta_nodes (Some 6) with
+  | Ok p => (eqb (eval_graph_nodes ex_meta_nodes ex_meta_tape)
+                 (Ok [VArr [7]; VArr [9]; VTup [VArr [7]; VArr [9]]; VArr [9]; VArr [1];
+                      VTup [VArr [7]; VArr [7]]; VArr [7]]))
+            && (eqb (eval_graph_nodes (po_nodes p) (transport (po_map p) ex_meta_tape))
+                    (Ok [VArr [7]; VArr [9]; VTup [VArr [7]; VArr [9]]; VArr [9]; VArr [1];
+                         VTup [VArr [7]; VArr [7]]; VArr [7]]))
+            && eqb (po_map p) [Some 0; Some 1; Some 2; Some 1; Some 4; Some 5; Some 0]
+  | _ => false
+  end = true.
+Proof. vm_compute. reflexivity. Qed.
+
 Definition ex_opt : list node :=
   [inp t8; mkNode (ORandom t8) [] [] [] t8; mkNode (ORandom t8) [] [] [] t8;
    mkNode (OPRF 1 t8) [1] [] [] t8; mkNode (OPRF 2 t8) [1] [] [] t8;
@@ -273,5 +335,7 @@ Print Assumptions C06_const_sem.
 Print Assumptions C06_const_inputs.
 Print Assumptions C06_const_annots.
 Print Assumptions C06_meta_inputs.
+Print Assumptions C06_meta_sem_partial.
 Print Assumptions C06_optimize_inputs.
 Print Assumptions C06_optimize_sem_partial.
+Print Assumptions C06_optimize_sem_transport_partial.
